@@ -565,7 +565,7 @@ func emitR(w *hx.Writer, c rcase) {
 				bs = append(bs, coqRecs(b))
 			}
 		}
-		term = fmt.Sprintf("R2 %d %d %s %s %s %s %s", c.Size, c.Thr, hx.List(bs), coqEvents(o.Events), hx.Bool(o.Stopped), hx.Bool(o.Fatal), hx.Bool(o.Panic))
+		term = fmt.Sprintf("R2 %d %d %s %s %s %s %s %s", c.Size, c.Thr, hx.List(bs), hx.Bool(c.NilReason), coqEvents(o.Events), hx.Bool(o.Stopped), hx.Bool(o.Fatal), hx.Bool(o.Panic))
 	}
 	w.Add(map[string]any{"input": c, "observed": o}, term)
 }
